@@ -38,17 +38,18 @@ Cmul(x, y) == <<x[1] * y[1] - x[2] * y[2], x[1] * y[2] + x[2] * y[1]>>
 Cconj(x) == <<x[1], 0 - x[2]>>
 Cneg(x) == <<0 - x[1], 0 - x[2]>>
 
-RECURSIVE CsumOver(_, _)
-CsumOver(S, f) == IF S = {} THEN C0
-                  ELSE LET x == CHOOSE y \in S : TRUE
-                       IN  Cadd(f[x], CsumOver(S \ {x}, f))
+\* sum_{x in 1..Dim} f[x]   (f a function on Idx)
+CsumIdx(f) == LET S[i \in 0 .. Dim] == IF i = 0 THEN C0 ELSE Cadd(S[i - 1], f[i])
+              IN S[Dim]
+\* sum over pairs
+CsumIdx2(g) == CsumIdx([x \in Idx |-> CsumIdx([y \in Idx |-> g[x][y]])])
 
 (* -------------------------------- matrices ----------------------------- *)
 Mat(f(_, _)) == [a \in Idx |-> [b \in Idx |-> f(a, b)]]
 ZeroM == [a \in Idx |-> [b \in Idx |-> C0]]
 E(i, j, u) == [a \in Idx |-> [b \in Idx |-> IF a = i /\ b = j THEN u ELSE C0]]
 MMul(A, B) == [a \in Idx |-> [b \in Idx |->
-                 CsumOver(Idx, [x \in Idx |-> Cmul(A[a][x], B[x][b])])]]
+                 CsumIdx([x \in Idx |-> Cmul(A[a][x], B[x][b])])]]
 MAdd(A, B) == [a \in Idx |-> [b \in Idx |-> Cadd(A[a][b], B[a][b])]]
 MSub(A, B) == [a \in Idx |-> [b \in Idx |-> Csub(A[a][b], B[a][b])]]
 MT(A) == [a \in Idx |-> [b \in Idx |-> A[b][a]]]
@@ -76,12 +77,11 @@ ApplyOp(K, L, rho) ==
 
 ApplyTensor(R, rho) ==
   [a \in Idx |-> [b \in Idx |->
-     CsumOver(Idx \X Idx,
-              [p \in Idx \X Idx |-> Cmul(R[a][b][p[1]][p[2]], rho[p[1]][p[2]])])]]
+     CsumIdx2([c \in Idx |-> [d \in Idx |-> Cmul(R[a][b][c][d], rho[c][d])]])]]
 
 (* ------------------------------ the identities ------------------------- *)
 TracePres(R) ==
-  \A c, d \in Idx : CsumOver(Idx, [a \in Idx |-> R[a][a][c][d]]) = C0
+  \A c, d \in Idx : CsumIdx([a \in Idx |-> R[a][a][c][d]]) = C0
 HermPres(R) ==
   \A a, b, c, d \in Idx : Cconj(R[a][b][c][d]) = R[b][a][d][c]
 
@@ -106,12 +106,13 @@ Transform(R, S) ==
       \*                or  S^-1 R[a,b,:,:] S      ("inverse")
       Lft == IF TransMode = "transpose" THEN MT(S) ELSE S1
       Rgt == IF TransMode = "transpose" THEN MT(S1) ELSE S
+      \* two half-steps, exactly as the code does
+      Half == [a \in Idx |-> [b \in Idx |-> [c \in Idx |-> [d \in Idx |->
+                 CsumIdx2([i \in Idx |-> [j \in Idx |->
+                    Cmul(Cmul(S1[a][i], R[i][j][c][d]), S[j][b])]])]]]]
   IN [a \in Idx |-> [b \in Idx |-> [c \in Idx |-> [d \in Idx |->
-       CsumOver((Idx \X Idx) \X (Idx \X Idx),
-         [q \in (Idx \X Idx) \X (Idx \X Idx) |->
-            Cmul(Cmul(S1[a][q[1][1]], S[q[1][2]][b]),
-                 Cmul(R[q[1][1]][q[1][2]][q[2][1]][q[2][2]],
-                      Cmul(Lft[c][q[2][1]], Rgt[q[2][2]][d])))])]]]]
+       CsumIdx2([k \in Idx |-> [l \in Idx |->
+          Cmul(Cmul(Lft[c][k], Half[a][b][k][l]), Rgt[l][d])]])]]]]
 TransformM(A, S) == MMul(MDag(S), MMul(A, S))
 
 \* transforming the tensor and the state = transforming the result
@@ -122,7 +123,7 @@ Covariant(R, S, rho) ==
 \* rates k[i][j] (i # j) doubled so that the mean of two depopulation rates
 \* stays an integer
 Complete(k) ==
-  LET dep(n) == 0 - (2 * CsumOver(Idx \ {n}, [i \in Idx |-> <<k[i][n], 0>>])[1])
+  LET dep(n) == 0 - (2 * CsumIdx([i \in Idx |-> IF i = n THEN C0 ELSE <<k[i][n], 0>>])[1])
   IN [a \in Idx |-> [b \in Idx |-> [c \in Idx |-> [d \in Idx |->
        IF a = b /\ c = d /\ a # c THEN <<2 * k[a][c], 0>>
        ELSE IF a = b /\ c = d THEN <<dep(a), 0>>
@@ -146,29 +147,35 @@ SSet == {PermDiag(p, [b \in Idx |-> C1]) : p \in Perms}
         \cup {PermDiag([b \in Idx |-> b], [b \in Idx |-> IF b = 2 THEN CI ELSE C1]),
               PermDiag([b \in Idx |-> b], [b \in Idx |-> IF b = 1 THEN Cneg(C1) ELSE C1])}
 
-VARIABLES K, L
-Init == K \in RealBasis /\ L \in CplxBasis
-Next == UNCHANGED <<K, L>>
-Spec == Init /\ [][Next]_<<K, L>>
+\* A two-level tree (root -> K chosen -> L chosen) so that TLC's workers
+\* share the evaluation of the invariants on the leaves.
+VARIABLES K, L, phase
+AnyReal == E(1, 1, C1)
+Init == K = AnyReal /\ L = AnyReal /\ phase = "root"
+Next ==
+  \/ /\ phase = "root" /\ phase' = "K" /\ K' \in RealBasis /\ L' = L
+  \/ /\ phase = "K" /\ phase' = "leaf" /\ L' \in CplxBasis /\ K' = K
+Spec == Init /\ [][Next]_<<K, L, phase>>
+Leaf == phase = "leaf"
 
 R == RTensor(K, L)
 
-TracePreserved == TracePres(R)
-HermiticityPreserved == HermPres(R)
+TracePreserved == Leaf => TracePres(R)
+HermiticityPreserved == Leaf => HermPres(R)
 OperatorFormEqualsTensorForm ==
-  \A rho \in RealBasis : ApplyOp(K, L, rho) = ApplyTensor(R, rho)
-SecularClauses == SecClauses(R)
+  Leaf => \A rho \in RealBasis : ApplyOp(K, L, rho) = ApplyTensor(R, rho)
+SecularClauses == Leaf => SecClauses(R)
 TransformPreserves ==
-  \A S \in SSet : /\ TracePres(Transform(R, S)) /\ HermPres(Transform(R, S))
+  Leaf => \A S \in SSet : /\ TracePres(Transform(R, S)) /\ HermPres(Transform(R, S))
 TransformCovariant ==
-  \A S \in SSet : \A rho \in RealBasis : Covariant(R, S, rho)
+  Leaf => \A S \in SSet : \A rho \in RealBasis : Covariant(R, S, rho)
 
 \* rate-structure facts do not depend on (K, L): evaluated as ASSUMEs
-RateSet == [Idx -> [Idx -> {0, 1, 2}]]
+RateSet == [Idx -> [Idx -> (IF Dim <= 2 THEN {0, 1, 2} ELSE {0, 1})]]
 ASSUME \A k \in RateSet : TracePres(Complete(k)) /\ HermPres(Complete(k))
 HSet == [Idx -> {C0, C1, CI}]
 DephaseOK ==
-  \A h \in HSet : LET T == Dephase(Complete([i \in Idx |-> [j \in Idx |-> 1]]), h)
+  (phase = "root") => \A h \in HSet : LET T == Dephase(Complete([i \in Idx |-> [j \in Idx |-> 1]]), h)
                   IN TracePres(T) /\ HermPres(T)
 
 (* --------------------------- table for the harness --------------------- *)
@@ -178,7 +185,7 @@ KeyOf == LET pk == Pos(K)  pl == Pos(L)
          IN ToString(pk[1]) \o ToString(pk[2]) \o "_" \o ToString(pl[1])
             \o ToString(pl[2]) \o (IF L[pl[1]][pl[2]] = C1 THEN "r" ELSE "i")
 ExportTable ==
-  TableDir # "" =>
+  (Leaf /\ TableDir # "") =>
     JsonSerialize(TableDir \o "/R" \o ToString(Dim) \o "_" \o KeyOf \o ".json",
                   [k |-> Pos(K), l |-> Pos(L),
                    lim |-> (L[Pos(L)[1]][Pos(L)[2]] = CI),
